@@ -303,9 +303,105 @@ static void run_trial(int idx)
 	free(t);
 }
 
+/* ------------------------------------------------------------- rounds mode
+ * Quiescent rounds: in every round the only party that can release the waiter (or fire the
+ * notification) is the group itself, and all harness threads meet at a sleeping barrier at the end of
+ * the round. A wake-up that is lost "when the count reaches zero" therefore leaves every thread asleep:
+ * the watchdog's stuck witness (C07 "never left behind"), instead of being masked by a later generation.
+ *   A: enter, wait with an already expired deadline (returns non-zero, leaves HAS_WAITERS behind), leave
+ *   B: enter (after A entered), then wait FOREVER / register a notification
+ *   C: once A has left and B has entered, performs the leave that empties the group for B
+ */
+#include <semaphore.h>
+typedef struct {
+	dispatch_group_t g; dispatch_queue_t q;
+	pthread_barrier_t bar;
+	_Atomic int a_entered, a_left, b_entered, round_kind;
+	sem_t notified;
+	int rounds;
+	_Atomic uint64_t waits_released, notifies_fired;
+	uint64_t salt;
+} rtrial_t;
+static void r_notify(void *ctx) { rtrial_t *t = ctx; atomic_fetch_add(&t->notifies_fired, 1); vf_progress(); sem_post(&t->notified); }
+typedef struct { rtrial_t *t; int role; vf_rng_t rng; pthread_t th; } rthr_t;
+static void *r_thread(void *arg)
+{
+	rthr_t *c = arg;
+	rtrial_t *t = c->t;
+	for (int round = 0; round < t->rounds; round++) {
+		pthread_barrier_wait(&t->bar);
+		int kind = atomic_load(&t->round_kind);
+		if (c->role == 0) {            /* A */
+			dispatch_group_enter(t->g);
+			atomic_store(&t->a_entered, 1);
+			if (vf_rnd_n(&c->rng, 4)) (void)dispatch_group_wait(t->g, vf_rnd_n(&c->rng, 2) ? DISPATCH_TIME_NOW : dispatch_time(DISPATCH_TIME_NOW, -1000));
+			else (void)dispatch_group_wait(t->g, dispatch_time(DISPATCH_TIME_NOW, (int64_t)vf_rnd_n(&c->rng, 30000)));
+			if (vf_rnd_n(&c->rng, 2)) vf_spin_ns(vf_rnd_n(&c->rng, 3000));
+			dispatch_group_leave(t->g);
+			atomic_store(&t->a_left, 1);
+		} else if (c->role == 1) {     /* B */
+			while (!atomic_load(&t->a_entered)) { __asm__ __volatile__("pause"); }
+			if (vf_rnd_n(&c->rng, 2)) vf_spin_ns(vf_rnd_n(&c->rng, 2000));
+			dispatch_group_enter(t->g);
+			atomic_store(&t->b_entered, 1);
+			if (kind == 0) {
+				if (dispatch_group_wait(t->g, DISPATCH_TIME_FOREVER)) vf_violation("C07:forever-wait-returned-nonzero", "dispatch_group_wait(FOREVER) returned non-zero");
+				atomic_fetch_add(&t->waits_released, 1);
+			} else {
+				dispatch_group_notify_f(t->g, t->q, t, r_notify);
+				while (sem_wait(&t->notified) && errno == EINTR) {}
+			}
+		} else {                       /* C */
+			while (!atomic_load(&t->b_entered)) { __asm__ __volatile__("pause"); }
+			if (vf_rnd_n(&c->rng, 2)) while (!atomic_load(&t->a_left)) { __asm__ __volatile__("pause"); }
+			if (vf_rnd_n(&c->rng, 2)) vf_spin_ns(vf_rnd_n(&c->rng, 2000));
+			dispatch_group_leave(t->g);
+		}
+		vf_progress();
+		pthread_barrier_wait(&t->bar);
+		if (c->role == 0) {
+			/* quiescent point: everybody is between rounds */
+			atomic_store(&t->a_entered, 0); atomic_store(&t->a_left, 0); atomic_store(&t->b_entered, 0);
+			atomic_store(&t->round_kind, (int)vf_rnd_n(&c->rng, 3) == 0);
+		}
+	}
+	return NULL;
+}
+static void run_rounds_trial(int idx)
+{
+	rtrial_t *t = calloc(1, sizeof(*t));
+	vf_rng_t r;
+	vf_rng_seed(&r, vf_opts.seed, (uint64_t)idx * 4831 + 101);
+	vf_profile_t prof;
+	vf_perturb_draw(&r, &prof);
+	t->g = dispatch_group_create();
+	t->q = vf_rnd_n(&r, 2) ? dispatch_queue_create("vf.group.rounds", DISPATCH_QUEUE_SERIAL) : dispatch_get_global_queue(0, 0);
+	t->rounds = (int)((long)(prof.kind == VF_P_OFF ? 60000 : 8000) * vf_opts.scale / 100) + 1;
+	pthread_barrier_init(&t->bar, NULL, 3);
+	sem_init(&t->notified, 0, 0);
+	rthr_t th[3];
+	vf_watch_begin("group:rounds:waiter-or-notification-left-behind-at-zero", 0);
+	for (int i = 0; i < 3; i++) { th[i].t = t; th[i].role = i; vf_rng_seed(&th[i].rng, vf_opts.seed ^ (uint64_t)idx, 900 + (uint64_t)i); pthread_create(&th[i].th, NULL, r_thread, &th[i]); }
+	for (int i = 0; i < 3; i++) pthread_join(th[i].th, NULL);
+	vf_watch_end();
+	vf_perturb_off();
+	vf_count("rounds", (uint64_t)t->rounds);
+	vf_count("round_waits_released", atomic_load(&t->waits_released));
+	vf_count("round_notifies_fired", atomic_load(&t->notifies_fired));
+	vf_count("items", (uint64_t)t->rounds);
+	vf_emit("trial", "\"n\":%d,\"sig\":\"grp-rounds-%d-%d\",\"nontrivial\":true,\"sample\":{\"trial\":%d,\"mode\":\"rounds\",\"rounds\":%d,\"forever_waits_released\":%llu,\"notifications_fired\":%llu,\"perturb\":\"%s\"}",
+			t->rounds, prof.kind, idx % 8, idx, t->rounds, (unsigned long long)atomic_load(&t->waits_released), (unsigned long long)atomic_load(&t->notifies_fired), prof.desc);
+	dispatch_release(t->g);
+	pthread_barrier_destroy(&t->bar); sem_destroy(&t->notified);
+	free(t);
+}
+
 int main(int argc, char **argv)
 {
 	vf_init(argc, argv, "h_group");
-	for (int i = 0; i < vf_opts.trials; i++) run_trial(vf_opts.first_trial + i);
+	for (int i = 0; i < vf_opts.trials; i++) {
+		if (!strcmp(vf_opts.mode, "rounds")) run_rounds_trial(vf_opts.first_trial + i);
+		else run_trial(vf_opts.first_trial + i);
+	}
 	return vf_finish();
 }
